@@ -251,7 +251,7 @@ type mon struct{}
 func (mon) Name() string { return "shellesc" }
 
 func (mon) Level(string) (string, string) {
-	return "exploration", "inputs = (a) every string of length <= 4 (quick) / <= 5 (thorough) over the 15-character alphabet {' \" \\ $ ` space newline ; & | * ~ ! # a}, plus \"~/\"+w for every such w (the alphabet has no '/'); (b) a fixed hostile corpus (command substitutions, separators, redirections, globs, tilde forms, every single byte in quoting contexts, arguments up to 100 kB; many try to create a canary file); (c) seeded random NUL-free byte strings of length <= 64 (2*10^4 quick / 10^6 thorough; 40% uniform bytes, 60% weighted towards shell-special bytes, 15% with a leading ~/ or ~). Every input goes through ShellEscape and ShellEscapeExceptTilde and both outputs are judged by the POSIX quoting model; (a), (b) and - in both tiers - all of (c) are also executed by dash, bash and bash --posix under LC_ALL=C and C.UTF-8 (ExceptTilde: HOME=/vhome/plain and HOME='/vhome/sp ace'), 500 words per command line, comparing the NUL-separated argv received by an external program, stderr, exit status and the directory content. The results of a batch (2500 inputs) are kept exactly as returned while the rest of the batch is escaped and it is these kept strings that go into the shell scripts; after the batch and again after the shells ran, every kept string is compared with a copy taken when it was returned and with the result of a fresh call (a result that changes while later calls happen is reported as result-mutated). (d) every string of length <= 16 over {quote, letter} (131 071; quoting model and kept-result comparison, thorough: the shells too). (e) concurrent callers: shards with GOMAXPROCS 2/4/16 and 4, 16, 64 or 4*GOMAXPROCS goroutines, each escaping its own seeded stream of tagged words (quote-heavy, plain, hostile, arbitrary bytes, long, ~/ forms; 40 000 words per shard quick, 10^6 thorough, both functions) - every result judged at once by the quoting model against the goroutine's own input, kept results compared per block of 32, and a seeded subset of kept results run by the shells after the join; such violations carry 'concurrent' in the key and replay the scenario. distinct_nontrivial = distinct inputs containing at least one byte outside [A-Za-z0-9_./-]."
+	return "exploration", "inputs = (a) every string of length <= 4 (quick) / <= 5 (thorough) over the 15-character alphabet {' \" \\ $ ` space newline ; & | * ~ ! # a}, plus \"~/\"+w for every such w (the alphabet has no '/'); (b) a fixed hostile corpus (command substitutions, separators, redirections, globs, tilde forms, every single byte in quoting contexts, arguments up to 100 kB; many try to create a canary file); (c) seeded random NUL-free byte strings of length <= 64 (2*10^4 quick / 10^6 thorough; 40% uniform bytes, 60% weighted towards shell-special bytes, 15% with a leading ~/ or ~). Every input goes through ShellEscape and ShellEscapeExceptTilde and both outputs are judged by the POSIX quoting model; (a), (b) and - in both tiers - all of (c) are also executed by dash, bash and bash --posix under LC_ALL=C and C.UTF-8 (ExceptTilde: HOME=/vhome/plain and HOME='/vhome/sp ace'), 500 words per command line, comparing the NUL-separated argv received by an external program, stderr, exit status and the directory content. The results of a batch (2500 inputs) are kept exactly as returned while the rest of the batch is escaped and it is these kept strings that go into the shell scripts; after the batch and again after the shells ran, every kept string is compared with a copy taken when it was returned and with the result of a fresh call (a result that changes while later calls happen is reported as result-mutated). (d) every string of length <= 16 over {quote, letter} (131 071; quoting model and kept-result comparison, thorough: the shells too). (e) concurrent callers: shards with GOMAXPROCS 2/4/16 and 4, 16, 64 or 4*GOMAXPROCS goroutines, each escaping its own seeded stream of tagged words (quote-heavy, plain, hostile, arbitrary bytes, long, ~/ forms; 40 000 words per shard quick, 10^6 thorough, both functions) - every result judged at once by the quoting model against the goroutine's own input, kept results compared per block of 32, and a seeded subset of kept results run by the shells after the join; such violations carry 'concurrent' in the key and replay the scenario. THOROUGH ONLY: (f) every word of length exactly 6 over the alphabet and \"~/\"+w (2 x 11.4 M inputs; model for all, shells: all 3 shells x 2 locales for both functions, the two HOMEs of the tilde form alternating per 2500-word chunk); (g) every word <= 4 behind the prefixes ~root/ ~nosuchuser/ ~+/ ~-/ ~a/ ~root ~; (h) every byte 0x01..0xff in every position: all 2-byte strings, and strings of length 3..5 with the other positions over {' \" \\ a space ~}, the 2- and 3-byte ones also behind ~/; (i) long arguments: lengths 4095..131071 (the execve limit for one argument) filled with letters, quotes (up to 131 071 of them), quote/backslash/newline patterns, command substitutions and seeded random bytes, plain and behind ~/; (j) shell contexts - the words (<= 4 over the alphabet, their ~/ forms, the corpus, 48 000 random strings) not only as arguments but tab-separated with an operator right after the last word, inside sh -c and eval (inner command line escaped once more by ShellEscape), in a for-list, assigned to variables and expanded quoted, inside $( ), as bash here-strings (LC_ALL=C), with IFS set to the bytes a ' \" \\ / ~ space newline or to empty, under set -f / set -u / set -fu, and in a directory holding a file for every 1- and 2-character string over the alphabet (every glob matches, most inputs name a file); the tilde form additionally with HOME=/, HOME=/vh/, a HOME made of shell-special characters and command substitutions, and a HOME with newline, tab and invalid UTF-8. distinct_nontrivial = distinct inputs containing at least one byte outside [A-Za-z0-9_./-]."
 }
 
 func (mon) Assumptions(string) []string {
@@ -259,6 +259,7 @@ func (mon) Assumptions(string) []string {
 		"strings containing NUL are outside the property (they cannot be passed in an argv)",
 		"the quoting model counts '!' as a trigger unless single-quoted or backslash-escaped (history expansion of interactive bash/zsh), unquoted '{' as brace expansion and '~' after an unquoted '=' as tilde expansion; a tilde-prefix that contains any quoting is literal (XCU 2.6.1), as dash and bash confirm",
 		"only dash and bash are installed; other POSIX shells are represented by the quoting model",
+		"thorough: the here-string context is read back with bash's read builtin, which is byte-exact only under LC_ALL=C (under C.UTF-8 read itself drops a 0x01 inside some invalid multibyte sequences, whatever quoting produced the word) - that context therefore runs under LC_ALL=C only",
 		"shells run with PATH restricted to a private directory holding argvdump and touch, so that a broken escaper run over random bytes cannot start arbitrary programs",
 	}
 }
@@ -279,7 +280,7 @@ func (mon) Plan(prop, tier string, seed int64) []drv.Shard {
 	ensureArgvdump() // once, before the children start (they would build it too)
 	maxLen, nrand, parts, secs := 4, 20000, 16, 600
 	if tier == "thorough" {
-		maxLen, nrand, secs = 5, 1000000, 1800
+		maxLen, nrand, secs = 5, 1000000, 3600
 	}
 	var out []drv.Shard
 	a, _ := json.Marshal(shardArgs{Kind: "corpus"})
@@ -315,6 +316,21 @@ func (mon) Plan(prop, tier string, seed int64) []drv.Shard {
 		out = append(out, drv.Shard{Name: fmt.Sprintf("conc-p%d-g%d", cc.procs, g), Args: a, Secs: secs,
 			Env: []string{fmt.Sprintf("GOMAXPROCS=%d", cc.procs)}})
 	}
+	if tier != "thorough" {
+		return out
+	}
+	// ---- thorough only: depth and diversity (DESIGN: "as deep as built") ----
+	add := func(kind string, parts int, maxLen int) {
+		for p := 0; p < parts; p++ {
+			a, _ := json.Marshal(shardArgs{Kind: kind, MaxLen: maxLen, Part: p, Parts: parts})
+			out = append(out, drv.Shard{Name: fmt.Sprintf("%s-%d", kind, p), Args: a, Secs: secs})
+		}
+	}
+	add("exh6", 64, 6)    // every word of length exactly 6 over the alphabet, and "~/"+w
+	add("ctx", 16, 4)     // words <= 4, ~/ forms, corpus, random: in every shell context and special HOME
+	add("bytepos", 16, 5) // every byte 0x01..0xff in every position of short strings
+	add("pre", 4, 4)      // ~user-like prefixes + every word <= 4
+	add("long", 2, 0)     // arguments up to the 128 KiB limit of execve
 	return out
 }
 
@@ -327,6 +343,9 @@ type runner struct {
 	env      *shellEnv
 	stop     bool
 	reported map[string]int // oracle -> violations reported by this shard
+	// cfgs selects the shell configurations of a chunk (nil: the 6 / 12 standard ones)
+	cfgs    func(tilde bool, chunkNo int) []shellCfg
+	chunkNo int
 }
 
 func (r *runner) open(oracle string) bool { return r.reported[oracle] < perOracleBudget }
@@ -443,7 +462,11 @@ func (r *runner) process(label string, ins []string, nShell int) {
 		if nShell <= 0 || r.env == nil {
 			continue
 		}
-		for _, cfg := range cfgsFor(tilde) {
+		cfgList := cfgsFor(tilde)
+		if r.cfgs != nil {
+			cfgList = r.cfgs(tilde, r.chunkNo)
+		}
+		for _, cfg := range cfgList {
 			cfg := cfg
 			if !r.open("shell") {
 				break
@@ -470,6 +493,13 @@ func (r *runner) process(label string, ins []string, nShell int) {
 			c.Add("shell_scripts", 1)
 			c.Add("tilde_expansions_checked", expansions)
 			c.SetAdd("shell_configs", cfg.String())
+			if cfg.Ctx != "" || cfg.Opts != "" || cfg.Dir != "" {
+				c.Add("shell_words_in_context_"+cfg.ctxLabel(), int64(len(items)))
+				c.SetAdd("shell_contexts", cfg.ctxLabel())
+			}
+			if cfg.Home != homePlain && cfg.Home != homeSpace {
+				c.Add("shell_words_with_special_HOME", int64(len(items)))
+			}
 			if o != "" {
 				// a batch built from kept strings fails: first see whether the kept strings
 				// are still what the function returned (they are what the script was made of)
@@ -520,6 +550,7 @@ func (r *runner) process(label string, ins []string, nShell int) {
 		}
 	}
 	c.Add("inputs", int64(len(ins)))
+	r.chunkNo++
 }
 
 func (mn mon) Run(sh drv.Shard, c *drv.Ctx) {
@@ -557,6 +588,8 @@ func (mn mon) Run(sh drv.Shard, c *drv.Ctx) {
 		}
 	case "conc":
 		runConcShard(sh, a, c, env)
+	case "exh6", "ctx", "bytepos", "pre", "long":
+		runDeepShard(sh, a, c, r)
 	case "ql":
 		// index n of length l: bit i set = quote at position i
 		total := 1<<(a.MaxLen+1) - 1
@@ -645,8 +678,37 @@ func (mn mon) Replay(v drv.Violation, c *drv.Ctx) {
 // Finish: the run must have observed every shell configuration, tilde expansions and the controls.
 func (mon) Finish(prop, tier string, m *drv.Merged) []string {
 	var inc []string
-	if n := len(m.Sets["shell_configs"]); n != len(cfgsFor(true)) {
-		inc = append(inc, fmt.Sprintf("only %d of %d shell configurations were observed", n, len(cfgsFor(true))))
+	seenCfg := map[string]bool{}
+	for _, s := range m.Sets["shell_configs"] {
+		seenCfg[s] = true
+	}
+	missing := 0
+	for _, cfg := range cfgsFor(true) {
+		if !seenCfg[cfg.String()] {
+			missing++
+		}
+	}
+	if missing > 0 {
+		inc = append(inc, fmt.Sprintf("%d of the %d standard shell configurations were not observed", missing, len(cfgsFor(true))))
+	}
+	if tier == "thorough" {
+		want := map[string]bool{}
+		for _, cfg := range ctxCfgs(true) {
+			if l := cfg.ctxLabel(); l != "args" {
+				want[l] = true
+			}
+		}
+		for _, l := range m.Sets["shell_contexts"] {
+			delete(want, l)
+		}
+		if len(want) > 0 {
+			inc = append(inc, fmt.Sprintf("%d shell contexts of the thorough tier were not observed", len(want)))
+		}
+		for _, k := range []string{"inputs_exh_len6", "inputs_byte_positions", "inputs_long", "inputs_user_prefixes", "shell_words_with_special_HOME"} {
+			if m.Sum[k] == 0 {
+				inc = append(inc, "thorough part not observed: "+k)
+			}
+		}
 	}
 	if m.Sum["tilde_expansions_checked"] == 0 {
 		inc = append(inc, "no ~/ expansion was observed in a real shell")
